@@ -169,6 +169,7 @@ class ProtoRun:
         self.refused = 0
         self.started = 0
         self.app_exc = None
+        self.app_call = None
 
     def loop_thread(self):
         return self.svc._Runnable__thread
@@ -181,6 +182,8 @@ class ProtoRun:
         return bool(self.app and self.app.is_alive())
 
     def call(self, what, *args):
+        self.app_call = (what,) + tuple(args)
+
         def body():
             try:
                 if what == "stop":
@@ -202,21 +205,26 @@ class ProtoRun:
         self.app = threading.Thread(target=body, name="app", daemon=True)
         self.app.start()
 
+    def app_blocked_in_join(self):
+        c = self.app_call
+        return self.app_busy() and "app" not in self.gate.parked and c is not None and \
+            ((c[0] == "stop" and c[2]) or c[0] == "wait") and self.loop_alive()
+
     def settle(self):
-        """wait until every thread is parked at a hook, blocked in a join, or finished"""
+        """wait until every thread is parked at a hook, blocked in a join, or finished (generous: the machine may be loaded)"""
         g = self.gate
-        for _ in range(200):
-            g.wait_parked_or("loop", lambda: not self.loop_alive(), 0.5)
-            if self.app_busy():
-                ok = g.wait_parked_or("app", lambda: not self.app_busy(), 0.05)
-                if not ok and not self.loop_alive():
-                    # join should complete now
-                    g.wait_parked_or("app", lambda: not self.app_busy(), 2.0)
-            # stable?
+        end = time.time() + 20
+        while time.time() < end:
             loop_ok = ("loop" in g.parked) or not self.loop_alive()
-            app_ok = ("app" in g.parked) or not self.app_busy() or self.loop_alive()
+            app_ok = ("app" in g.parked) or not self.app_busy() or self.app_blocked_in_join()
             if loop_ok and app_ok:
-                return
+                # re-check after a short pause: a thread that has just been released may not have moved yet
+                time.sleep(0.002)
+                loop_ok = ("loop" in g.parked) or not self.loop_alive()
+                app_ok = ("app" in g.parked) or not self.app_busy() or self.app_blocked_in_join()
+                if loop_ok and app_ok:
+                    return
+            time.sleep(0.001)
         raise HarnessError("threads did not settle")
 
     def obs(self):
@@ -467,7 +475,7 @@ def run(res, tier, seed, proof_broken, replay):
         if f["loop"] == "dead" and f["app"] == "idle" and f["done"] != "1":
             res.violation({"property": PID, "kind": "regression of fixed finding", "id": "stop-final-race-skips-done",
                            "schedule": ["C start", "L", "C stop T T", "A"], "observed": real[-1]})
-    n1, n2, n3, slen = (300, 60, 300, 14) if tier == "quick" else (5000, 600, 5000, 24)
+    n1, n2, n3, slen = (300, 60, 300, 14) if tier == "quick" else (5000, 250, 5000, 20)
     l1, d1 = corr_runseq(rng, n1)
     l2, steps2, d2 = corr_proto(rng, n2, slen)
     l3, d3 = corr_notify(rng, n3)
